@@ -74,7 +74,8 @@ def run(tier, seed):
                  "(R5) the strings appended to the output path start at a byte != '/'; (R6) directory metadata is applied only to "
                  "directories whose mkdir succeeded in this run; (R6c) the link-following metadata setters (utime/chmod/chown) only ever receive a path the same call created with O_EXCL or mkdir, or a re-presented directory. Decides these necessary conditions, not the filesystem behaviour "
                  "(kernel path resolution, crash points); (R7) is_dangerous_symlink is checked against the component scanner: a zero result only for a missing target or at the "
-                 "end of a target not starting with '/', every component boundary crossed under facts excluding '..' (E9 SCAN). collapse_path's internals: C11 R5.")
+                 "end of a target not starting with '/', every component boundary crossed under facts excluding '..' (E9 SCAN). collapse_path's internals: C11 R5. (R1c) the option-word parser examines every character - the cursor steps by one, or past bytes the path's branch facts show to differ from 'n', or leaves the word at 'w' - "
+                 "and sets dry_run on every path on which the current byte is 'n'; (R3b) lha_arch_mkdir reports success only under mkdir(...) == 0; (R4d) one genuine defect is a recorded known finding.")
     with Context(tier) as ctx:
         from .. import selfcheck
         selfcheck.run(ctx, rep, ['facts'])
